@@ -87,7 +87,7 @@ extern MPT_STRUCT(config_item) *mpt_config_item_reserve(_MPT_UARRAY_TYPE(MPT_STR
 			unused->value = 0;
 		}
 		if ((sub = unused->elements._buf)) {
-			mpt_buffer_cut(sub, 0, buf->_used);
+			mpt_buffer_cut(sub, 0, sub->_used);
 			mpt_array_reduce(&unused->elements);
 		}
 	}
